@@ -27,14 +27,14 @@ func TestProp(t *testing.T) {
 	kit.Run(t, "C19", rule,
 		kit.Clause[Subject]{Name: "C19/density/integrates-to-one", Quick: 2400, Thorough: 60000,
 			Gen: func(t *rapid.T) Subject { return subjectGen(t, allMatKinds, true) }, Check: checkIntegral},
-		kit.Clause[statCase]{Name: "C19/sampler/matches-density", Quick: 800, Thorough: 12000, Gen: statGen, Check: checkSampler},
+		kit.Clause[statCase]{Name: "C19/sampler/matches-density", Quick: 800, Thorough: 8000, Gen: statGen, Check: checkSampler},
 		kit.Clause[energyCase]{Name: "C19/bsdf/energy-bound", Quick: 1600, Thorough: 40000, Gen: energyGen, Check: checkEnergy},
-		kit.Clause[schlickCase]{Name: "C19/refract/schlick-split", Quick: 500, Thorough: 10000,
-			Gen: func(t *rapid.T) schlickCase { return schlickGen(t, sampleCount(8000, 40000)) }, Check: checkSchlick},
-		kit.Clause[lightCase]{Name: "C19/light/surface-normal-power", Quick: 500, Thorough: 10000,
+		kit.Clause[schlickCase]{Name: "C19/refract/schlick-split", Quick: 500, Thorough: 8000,
+			Gen: func(t *rapid.T) schlickCase { return schlickGen(t, sampleCount(8000, 30000)) }, Check: checkSchlick},
+		kit.Clause[lightCase]{Name: "C19/light/surface-normal-power", Quick: 500, Thorough: 6000,
 			Gen: func(t *rapid.T) lightCase {
 				return lightCase{L: lightGen(t, 1, []string{"sphere", "cylinder", "cylinder", "mesh", "mesh", "joined", "joined"}, "light"),
-					N: sampleCount(20000, 100000), Seed: int64(gen.Int(t, 1, 1<<40, "seed"))}
+					N: sampleCount(20000, 60000), Seed: int64(gen.Int(t, 1, 1<<40, "seed"))}
 			}, Check: checkLight},
 	)
 }
